@@ -32,6 +32,8 @@ def run(ck):
     ck.run_rule(u2_rights, ctx)
     ck.run_rule(u3_u5_state_fields, ctx)
     ck.run_rule(u6_unique_resolution)
+    from .c12 import q7_uci_query
+    ck.run_rule(q7_uci_query)   # the coordinate -> query conversion feeding by_performing_moves
 
 
 def collect_sets(ck, ctx):
